@@ -197,4 +197,28 @@ CLAIMS["C19"] = {
     "design_ref": "DESIGN.md section 6 C19, section 10",
 }
 
+CLAIMS["C16"] = {
+    "text": "Machine-checked proof (Lean 4) over an executable model of what a generated type does to a dynamic value (deserialize as "
+            "the type, serialize again) for EVERY environment of struct / enum / newtype definitions with distinct field ids per struct, "
+            "every schema type (all built-ins, nested generics, arrays, box, references, keys by newtype), every value: the type accepts "
+            "exactly the values that conform to the schema type, where conformance is a separate declarative definition (unknown field "
+            "ids tolerated, required fields present, declared fields / payloads of the declared type, unknown variants only with fallback) "
+            "(accepts_exactly_conforming); the rejections named in the property are corollaries (missing_required_field_rejected, "
+            "wrongly_typed_field_rejected, unknown_variant_rejected, wrong_payload_rejected); what is written back is accepted again "
+            "and written back unchanged and conforms (reencoding_stable, reencoded_conforms); exactly which entries are written: "
+            "required / optional declared fields (known_fields_written), every unknown field kept by a struct with fallback and none by "
+            "one without (unknown_fields_kept, unknown_fields_dropped_without_fallback), unknown variants kept intact by an enum with "
+            "fallback (unknown_variant_kept). Tie: rustc compiles aldrin::generate! for the schema corpus on every run (thorough: "
+            "plus fresh grammar-generated schema batches), and every generated struct / enum / newtype / inline service type is driven "
+            "with conforming and systematically damaged values in both encodings against the model; implementation-only oracles for "
+            "acceptance, stability, required fields, unknown fields and variants with / without fallback, and old/new schema pairs.",
+    "note": "Trusted: Lean kernel (+propext, Classical.choice, Quot.sound), harness-typed (build script and value generator), the C01 "
+            "decoder model that turns bytes into the dynamic value. Partial: 'the generated code compiles for every valid schema' is a "
+            "statement about rustc and is tested on the corpus and on generated schemas, not proved; the old/new survival clause is an "
+            "oracle on schema pairs plus the fallback theorems, not one theorem over pairs of environments; typed depth limits and "
+            "serialization errors are not modelled.",
+    "design_ref": "DESIGN.md section 6 C16, section 10",
+    "technique": "Lean 4 proofs over an executable model of the derive semantics + rustc on generated schemas + differential correspondence against the generated types",
+}
+
 NOT_APPLICABLE = {}
